@@ -8,6 +8,7 @@ in real interpreters; longer seeded histories of 3..8 imports compare two permut
 """
 import importlib
 import json
+import os
 import random
 import subprocess
 import sys
@@ -55,8 +56,9 @@ for m in hist:
         out = {"ok": False, "failing": m, "error": type(e).__name__, "msg": str(e)[:200], "site": site, "names": {}}
         break
 if out["ok"]:
-    for m in hist:
-        out["names"][m] = sorted(n for n in vars(sys.modules[m]) if not n.startswith("_"))
+    for m in sorted(x for x in sys.modules if x == "cdd" or x.startswith("cdd.")):
+        if not m.startswith("cdd.tests"):
+            out["names"][m] = sorted(n for n in vars(sys.modules[m]) if not n.startswith("_"))
 print(json.dumps(out))
 """
 
@@ -75,9 +77,77 @@ def run_real(history):
         return {"ok": False, "failing": "?", "error": "ChildDied", "msg": (p.stderr or "")[-300:], "site": None, "names": {}}
 
 
+_preloaded = [False]
+
+
+def preload():
+    """Load, in this (parent) process, every NON-cdd module that importing the whole package pulls in, without ever
+    importing cdd here: a forked child then starts from the state of a fresh interpreter whose third-party modules are
+    already in memory, and pays only for the cdd modules of its history."""
+    if _preloaded[0]:
+        return
+    r, w = os.pipe()
+    pid = os.fork()
+    if pid == 0:
+        try:
+            os.close(r)
+            for m in proc.public_modules():
+                try:
+                    importlib.import_module(m)
+                except BaseException:
+                    pass
+            names = sorted(m for m in sys.modules if not (m == "cdd" or m.startswith("cdd.")))
+            with os.fdopen(w, "w") as f:
+                f.write(json.dumps(names))
+        finally:
+            os._exit(0)
+    os.close(w)
+    with os.fdopen(r) as f:
+        names = json.loads(f.read() or "[]")
+    os.waitpid(pid, 0)
+    for m in names:
+        if m in sys.modules or m.startswith("__"):
+            continue
+        try:
+            importlib.import_module(m)
+        except BaseException:
+            pass
+    assert not any(m == "cdd" or m.startswith("cdd.") for m in sys.modules), "the parent must never import cdd"
+    _preloaded[0] = True
+
+
 def run_inprocess(history):
-    """The history after an in-process restart."""
-    proc.purge(("cdd",))
+    """The history in a forked child of a parent that never imported cdd: every history starts from a fresh copy of
+    the interpreter state (S4: the restart is a fork, so mutations of stdlib/third-party modules made by one history —
+    e.g. appending to `typing.__all__` — cannot leak into the next one)."""
+    preload()
+    r, w = os.pipe()
+    pid = os.fork()
+    if pid == 0:
+        try:
+            os.close(r)
+            res = _run_here(history)
+            with os.fdopen(w, "w") as f:
+                f.write(json.dumps(res))
+        except BaseException as e:  # pragma: no cover
+            try:
+                os.write(w, json.dumps({"ok": False, "failing": "?", "error": type(e).__name__, "msg": str(e)[:200],
+                                        "site": None, "names": {}}).encode())
+            except BaseException:
+                pass
+        finally:
+            os._exit(0)
+    os.close(w)
+    with os.fdopen(r) as f:
+        data = f.read()
+    os.waitpid(pid, 0)
+    try:
+        return json.loads(data)
+    except ValueError:
+        return {"ok": False, "failing": "?", "error": "ChildDied", "msg": data[-200:], "site": None, "names": {}}
+
+
+def _run_here(history):
     out = {"ok": True, "names": {}}
     for m in history:
         try:
@@ -88,8 +158,9 @@ def run_inprocess(history):
                 if "/cdd/" in fr.filename and "/tests/" not in fr.filename:
                     site = "%s:%d" % (fr.filename.split("/cdd/", 1)[1], fr.lineno)
             return {"ok": False, "failing": m, "error": type(e).__name__, "msg": str(e)[:200], "site": site, "names": {}}
-    for m in history:
-        out["names"][m] = sorted(n for n in vars(sys.modules[m]) if not n.startswith("_"))
+    for m in sorted(x for x in sys.modules if x == "cdd" or x.startswith("cdd.")):
+        if not m.startswith("cdd.tests"):
+            out["names"][m] = sorted(n for n in vars(sys.modules[m]) if not n.startswith("_"))
     return out
 
 
@@ -103,9 +174,12 @@ def _h1(history, r):
 
 def _h2(h1, h2, r1, r2):
     diffs = []
-    for m in h1:
+    # the two named modules first, then every other cdd module that both orders ended up loading: a package
+    # legitimately gains submodule attributes as more of it is imported, but both orders load the same set
+    both = [m for m in h1] + sorted(m for m in r1["names"] if m in r2["names"] and m not in h1)
+    for m in both:
         a, b = r1["names"].get(m), r2["names"].get(m)
-        if a != b:
+        if a is not None and b is not None and a != b:
             diffs.append((m, sorted(set(a or []) ^ set(b or []))[:8]))
     if not diffs:
         return None
@@ -235,19 +309,20 @@ def plan(tier, seed, scale=1.0):
     for w in range(8):
         tasks.append({"part": "singles", "modules": mods[w::8], "seed": seed})
     unordered = [(a, b) for i, a in enumerate(mods) for b in mods[i + 1:]]
-    if tier == "quick":
+    if tier == "quick" and scale < 1.0:
         anchor = [p for p in unordered if p[0] in ANCHORS or p[1] in ANCHORS]
         rest = [p for p in unordered if p not in set(anchor)]
         pairs = anchor + rng.sample(rest, min(len(rest), int(120 * scale)))
         exhaustive = False
     else:
+        # with fork-based restarts an ordered pair costs ~40 ms: both tiers enumerate the pair space completely
         pairs = unordered
         exhaustive = True
     nw = 16
     for w in range(nw):
         tasks.append({"part": "pairs", "pairs": pairs[w::nw], "seed": seed * 1000 + w, "real_share": 0.05,
                       "exhaustive": exhaustive})
-    n_long = int({"quick": 15, "thorough": 400}[tier] * scale)
+    n_long = int({"quick": 40, "thorough": 1500}[tier] * scale)
     for w in range(8):
         tasks.append({"part": "longer", "n": n_long, "seed": seed * 1000 + 100 + w})
     return tasks
